@@ -77,6 +77,30 @@ struct TopologicalSort<'a, T: DependentRule> {
 impl<'a, T: DependentRule> TopologicalSort<'a, T> {
   fn get_order(maps: &HashMap<String, T>) -> OrderResult<Vec<&str>> {
     let mut top_sort = TopologicalSort::new(maps);
+    #[cfg(ast_grep_verif)]
+    {
+      use ast_grep_core::verif_hook as vh;
+      let list = |ks: &mut dyn Iterator<Item = &str>| ks.map(vh::quote).collect::<Vec<_>>().join(",");
+      let iter = list(&mut maps.keys().map(|k| k.as_str()));
+      let mut result = Ok(());
+      for key in maps.keys() {
+        result = top_sort.visit(key);
+        if result.is_err() {
+          break;
+        }
+      }
+      let order = list(&mut top_sort.order.iter().copied());
+      vh::emit(
+        "topo_order",
+        &format!(
+          "\"iter\":[{iter}],\"order\":[{order}],\"cyclic\":{}",
+          result.as_ref().err().map(|e| vh::quote(e)).unwrap_or_else(|| "\"\"".to_string())
+        ),
+      );
+      result?;
+      return Ok(top_sort.order);
+    }
+    #[allow(unreachable_code)]
     for key in maps.keys() {
       top_sort.visit(key)?;
     }
